@@ -55,6 +55,9 @@ def tiny_configs(tier):
     add('MemoryBeliefPropagationDecoder', 'Planar2DCode', (2, 2), dec_kwargs={'max_bp_iter': 5})
     add('UnionFindDecoder', 'Toric2DCode', (3, 3), p=0.05)
     add('XCubeMatchingDecoder', 'XCubeCode', (2, 2, 2), p=0.02)
+    # per-plane / per-sector buffers only differ in length on non-cubic lattices
+    add('XCubeMatchingDecoder', 'XCubeCode', (2, 2, 3), p=0.05)
+    add('XCubeMatchingDecoder', 'XCubeCode', (3, 2, 2), noise='X', p=0.05)
     if tier != 'quick':
         add('MatchingDecoder', 'Toric2DCode', (2, 3))
         add('MatchingDecoder', 'Planar2DCode', (2, 3), noise='Zbias', noise_def='XZZX', noise_def_kw={})
@@ -109,6 +112,14 @@ def larger_configs(tier):
                  'noise': 'depol', 'p': 0.08})
     cfgs.append({'decoder': 'XCubeMatchingDecoder', 'code': 'XCubeCode', 'size': [3, 3, 3],
                  'noise': 'Z', 'p': 0.02})
+    for size in ([(2, 3, 2), (2, 2, 3), (3, 2, 2)] if tier == 'quick'
+                 else [(2, 3, 2), (2, 2, 3), (3, 2, 2), (2, 3, 4), (4, 2, 3)]):
+        cfgs.append({'decoder': 'XCubeMatchingDecoder', 'code': 'XCubeCode', 'size': list(size),
+                     'noise': 'depol', 'p': 0.06})
+    cfgs.append({'decoder': 'MemoryBeliefPropagationDecoder', 'code': 'RotatedPlanar2DCode',
+                 'size': [3, 4], 'noise': 'depol', 'p': 0.08, 'dec_kwargs': {'max_bp_iter': 8}})
+    cfgs.append({'decoder': 'MatchingDecoder', 'code': 'RotatedPlanar2DCode', 'size': [3, 5],
+                 'noise': 'Zbias', 'p': 0.08, 'noise_def': 'XZZX', 'noise_def_kw': {}})
     for c in cfgs:
         c['_long'] = True
     return cfgs
